@@ -98,6 +98,10 @@ def parseLeg (s : String) : Option Leg :=
     let d ← d.toNat?; let t ← t.toNat?; let amt ← amt.toNat?; let rcv ← rcv.toNat?; let ft ← ft.toNat?; let fa ← fa.toNat?
     let call ← parseCall call
     pure (.send { dst := d, token := t, amount := amt, receiver := rcv, call := call, feeToken := ft, feeAmount := fa, callback := false })
+  | "L" :: d :: _ => do
+    -- a look-alike PacketSent log emitted by another contract: whatever packet its data encodes, the hook does not see it
+    let d ← d.toNat?
+    pure (.fakelog { src := 0, dst := d, seq := 0, sender := 0, transfer := none, call := .none, callback := false })
   | _ => none
 
 def step (st : St) (line : String) : St × String :=
@@ -153,6 +157,16 @@ def step (st : St) (line : String) : St × String :=
     match nats [c, a, rank], cts.mapM parseChainTag with
     | some [c, a, rank], some cts =>
       ({ st with w := World.step st.fixed st.w (.register c a rank cts) }, "ok")
+    | _, _ => (st, "bad-op")
+  | ["fakelog", c, snd, spec] =>
+    -- a transaction of `snd` straight to the log-emitting contract: a batch of one look-alike leg, no value
+    match nats [c, snd], parseLeg ("L," ++ spec) with
+    | some [c, snd], some leg =>
+      match World.batch (st.w.cfg c) c (st.w.chains c) snd true [leg] with
+      | none => (st, "err " ++ dump st c)
+      | some _ =>
+        let st := { st with w := World.step st.fixed st.w (.batch c snd true [leg]) }
+        (st, "ok " ++ dump st c)
     | _, _ => (st, "bad-op")
   | "batch" :: c :: snd :: strict :: legs =>
     match nats [c, snd, strict], legs.mapM parseLeg with
